@@ -147,7 +147,7 @@ Definition halscp_entry_fx (T : tensor Q) (w : list Q) (Fs : list qmat) (fixed :
            (n : nat) (tol : Q) : list Q * list qmat :=
   let T' := t2fx T in let sp' := sp2fx sp in let N := length Fs in
   let sps' := parse_sps N sp' (parse_fixed fixed) in
-  let r := non_negative_parafac_hals_entry Fxops fxnrm2 (fun _ => cp_hals_utm Fxops T') (fun _ => cp_hals_utu Fxops) (fun _ M => M)
+  let r := non_negative_parafac_hals_entry Fxops fxnrm2 (fun _ => cp_hals_utm Fxops T') (fun _ => cp_hals_utu Fxops) (gsolve_mat Fxops)
              (fun _ => cp_hals_inner Fxops T' sps' (q2fx tol)) (fun _ _ => false) N fixed nn sp' nm n (map q2fx w) (map m2fx Fs) in
   (map fx2q (fst r), map m2q (snd r)).
 Definition tkhals_entry_fx (T core : tensor Q) (Fs : list qmat) (fixed : option (list nat)) (sp : @sp_opt Q) (csp : Q) (nm : bool)
